@@ -21,7 +21,7 @@ TRUSTED = [
     'modelled, not verified: genshi/output.py EmptyTagFilter, WhitespaceFilter, DocTypeInserter, the three '
     'serializer main loops (hand-written Lean model, tied by differential correspondence on rendered output)',
     'NamespaceFlattener is modelled on the lite domain only (no namespaces, or XHTML elements with prefix ""; '
-    'xml:* attributes); namespace-heavy streams are switched off (work package xml / C02)',
+    'xml:* attributes); namespace-heavy streams are judged by the oracles only (the model answers unmodelled)',
     'not modelled: Python re (the two regular expressions of WhitespaceFilter are list functions in Lean, '
     'compared with re on generated text), dict/tuple hashing and equality of cache keys (modelled as event equality)',
     'C escape() vs escapePy: tied by C18',
@@ -48,6 +48,9 @@ PROFILES = [
     ('xhtml-ns', 2, dict(ns='xhtml', root=True, pool=3, cdata=0.1, max_nodes=14)),
     ('xhtml-ns-events', 1, dict(ns='xhtml', root=True, ns_events=True, pool=3, cdata=0.1, max_nodes=12)),
     ('prolog', 2, dict(pool=3, prolog=0.7, pis=0.05, comments=0.05, max_nodes=10)),
+    # several URIs / prefixes / START_NS events: switched on after the NamespaceFlattener repair (fix 86aac1c);
+    # the flatten-lite model answers `unmodelled`, the cache on/off and strip on/off oracles judge the real code
+    ('ns-heavy', 2, dict(ns='heavy', allow_heavy=True, root=True, ns_events=True, pool=3, cdata=0.1, max_nodes=14)),
     ('odd', 1, dict(pool=3, raw_markup=True, void_kids=True, cdata=0.15, comments=0.1, pis=0.05, max_nodes=12,
                     safe_text=0.1, comment_dashes=True, attr_ws=True, text_cr=True)),
 ]
